@@ -784,7 +784,8 @@ class URL:
         if authority:
             _add('//')
             _add(authority)
-        elif (scheme and path[:2] != '//' and self.uses_netloc):
+        elif (scheme and path[:2] != '//' and path[:1] in ('', '/')
+              and self.uses_netloc):
             _add('//')
         if path:
             if scheme and authority and path[:1] != '/':
